@@ -212,8 +212,7 @@ def gen(model, header_text):
                             '    printf("{\\"ev\\":\\"ret\\",\\"k\\":%d,\\"val\\":[]}\\n");' % kd, "  }"]
                 calls.append("\n".join(blk))
     c.append("static Pt mkpt(int x, long long y, int z) { Pt p; p.x = x; p.y = y; p.z = (uint8_t)z; return p; }\n")
-    for cb in cbgen.callback_kinds(model):
-        nm, _ = cbgen.CB_ELEM[cb]
+    for nm, _ in sorted({cbgen.CB_ELEM[cb] for cb in cbgen.callback_kinds(model)}):
         ety = {"Pt": "Pt", "u64": "uint64_t"}[nm]
         c.append("static OpaqueCallback<%s> mkcb_%s() { OpaqueCallback<%s> cb; cb.context = &CBX; cb.func = mock_cb_%s; return cb; }\n" % (ety, nm, ety, nm))
     c.append("int main(void) {\n%s\n  return 0;\n}\n" % "\n".join(calls))
